@@ -481,15 +481,37 @@ def analyse(text, cursor):
         raw = cmd.raw_prefix
         if not any(b.endswith(raw) for b in bs):
             return ("command-prefix", "", f"raw_prefix={raw!r} is not how the text before the cursor {before!r} ends")
-        if not any(a.startswith(cmd.suffix) for a in as_):
-            return ("command-suffix", "", f"suffix={cmd.suffix!r} is not how the text after the cursor {after!r} starts")
+        inside = bool(cmd.opening_quote or cmd.closing_quote) and not cmd.is_after_closing_quote
+        tail = cmd.suffix + (cmd.closing_quote if inside else "")
+        if not any(a.startswith(tail) for a in as_):
+            return ("command-suffix", "", f"suffix={cmd.suffix!r} (+closing quote {cmd.closing_quote!r}) is not how the text after the cursor {after!r} starts")
+        # prefix + suffix are the WHOLE word around the cursor: the reproduced word must not stop in
+        # the middle of a word.  Only the unambiguous situation is judged: no line continuation, no
+        # comment before the cursor, no IO redirect anywhere (`a>`, `2>`, `>` are separate words glued
+        # to their neighbours by design), and the neighbouring character can only continue a word.
+        if LC not in text and "#" not in before and ">" not in text and "<" not in text:
+            e = cursor + len(tail)
+            if e < len(text) and text[e] in _WORD_CONT_RIGHT:
+                return ("command-suffix-truncated", "", f"suffix={cmd.suffix!r} closing_quote={cmd.closing_quote!r} stops before {text[e:]!r}, in the middle of a word")
+            b = cursor - len(raw)
+            if b > 0 and text[b - 1] in _WORD_CONT_LEFT:
+                return ("command-prefix-truncated", "", f"raw_prefix={raw!r} starts after {text[:b]!r}, in the middle of a word")
     if ctx.python is not None:
         py = ctx.python
         code, ci = py.multiline_code, py.cursor_index
         start = cursor - ci if isinstance(ci, int) else -1
         if not (isinstance(ci, int) and 0 <= ci <= len(code)) or start < 0 or text[start : start + len(code)] != code:
             return ("python-slice", "", f"multiline_code={code!r} cursor_index={ci!r} is not a slice of the text aligned at the cursor")
+        if not py.is_sub_expression and code != text:
+            return ("python-slice", "", f"top-level multiline_code={code!r} is not the whole text")
+        if py.is_sub_expression and not (text[:start].endswith("@(") or text[:start].endswith("@!(")):
+            return ("python-slice", "", f"sub-expression code {code!r} does not start right after '@(' / '@!('")
     return None
+
+
+# characters that can only continue the word they touch (letters, quotes, backslash, `$`, `@`, `!`, braces)
+_WORD_CONT_RIGHT = set("a'\"\\$@!{}([")
+_WORD_CONT_LEFT = set("a'\"\\$@!{})]")
 
 
 def _p2_class(text, cursor, bad):
@@ -620,8 +642,16 @@ def run(ctx):
     _init_p2()
     records.sort(key=lambda r: (len(r["text"]), r["text"], r["cursor"]))
     seen_keys = collections.Counter()
-    for r in records:
+    unknown_per_clause = collections.Counter()
+    for r in records:  # smallest first
+        if not r["class"]:
+            # an unclassified (new) failure: report the few smallest minimised forms per clause; a
+            # systematic defect would otherwise yield hundreds of keys
+            if unknown_per_clause[r["clause"]] >= 6:
+                continue
         key = p2_key(r)
+        if not r["class"] and key not in seen_keys:
+            unknown_per_clause[r["clause"]] += 1
         seen_keys[key] += 1
         if seen_keys[key] > 3:
             continue
